@@ -825,14 +825,25 @@ class DBusObjectHandler :
                 msg.interface == 'org.freedesktop.DBus.ObjectManager'
                 and msg.member == 'GetManagedObjects'
         ):
-            i_and_p = self.getManagedObjects(o.getObjectPath())
+            try:
+                i_and_p = self.getManagedObjects(o.getObjectPath())
 
-            r = message.MethodReturnMessage(
-                msg.serial,
-                body=[i_and_p],
-                destination=msg.sender,
-                signature='a{oa{sa{sv}}}',
-            )
+                r = message.MethodReturnMessage(
+                    msg.serial,
+                    body=[i_and_p],
+                    destination=msg.sender,
+                    signature='a{oa{sa{sv}}}',
+                )
+            except Exception as e:
+                # A property value that cannot be marshalled must neither
+                # leave the caller without a reply nor escape into the
+                # protocol's dataReceived (which drops the connection)
+                self._send_err(
+                    msg,
+                    'org.freedesktop.DBus.Error.Failed',
+                    'GetManagedObjects failed: %s' % (e,),
+                )
+                return
 
             self.conn.sendMessage(r)
 
